@@ -120,7 +120,8 @@ def gen_select_one(rng):
         # overlapping test-name arguments: exact + glob, `proj:` + name, the same name twice, ...
         n0 = rng.choice(names[:max(nt, 1)])
         ar = SEP2.join(rng.choice([[n0, '*'], [n0, n0], ['p:' + n0, n0, '?'], ['p:', n0], [':' + n0, n0, 'q:*'],
-                                   ['*', '?'], [n0, '*:' + n0], ['p:*', 'q:*', n0], [n0[0] + '*', n0]]))
+                                   ['*', '?'], [n0, '*:' + n0], ['p:*', 'q:*', n0], [n0[0] + '*', n0], ['[%sz]' % n0, n0], ['[!%s]' % n0, '[pq]:*'],
+                                   ['[]%s]' % n0, '[!]]']]))
     sl = ''
     if rng.random() < 0.5:
         k = rng.randint(1, 6)
@@ -128,7 +129,7 @@ def gen_select_one(rng):
     return ['select', [rng.choice('ppq'), inc, exs, ex, ar, sl] + tests]
 
 
-def gen_misc(rng, nsel, maxlen):
+def gen_misc(rng, nsel, maxlen, maxglob=3):
     cases = []
     for a in SUITE_ARGS + ['']:
         for b in TEST_SUITES + SUITE_ARGS:
@@ -148,6 +149,13 @@ def gen_misc(rng, nsel, maxlen):
         for b in envs:
             for cpus in ('1', '16'):
                 cases.append(['workers', [a, b, cpus]])
+    # name globs against Python's fnmatch: every pattern up to length 3 (4) over {a b * ? [ ] ! ^} x every
+    # string up to length 2 over {a b ] ! ^ [}  (no `-`: ranges are not modelled)
+    strs = [''.join(t) for k in range(0, 3) for t in itertools.product('ab]!^[', repeat=k)]
+    for k in range(0, maxglob + 1):
+        for pt in itertools.product('ab*?[]!^', repeat=k):
+            for x in strs:
+                cases.append(['glob', [''.join(pt), x]])
     nex = len(cases)
     for _ in range(nsel):
         cases.append(gen_select_one(rng))
@@ -163,7 +171,7 @@ def model_case(case, aux):
         return ('classify', [p, xf, xe if xe != '' else '0', aux, w, rc])
     if fn == 'tally':
         return ('tally', a)
-    if fn in ('select', 'suite', 'slice', 'jobsopt'):
+    if fn in ('select', 'suite', 'slice', 'jobsopt', 'glob'):
         return (fn, a)
     if fn == 'workers':
         def ev(x):
@@ -216,6 +224,7 @@ def oracle_case(fn, a, ri, slice_of):
         results = [e[2] for e in evl if e[0] == 'e']
         cut = sched_cut_short(int(a[2]), a[3] == 'T', results)
         bad = O.trace_clauses([c == 'T' for c in a[0]], int(a[1]), evl, cut)
+        bad += O.stop_clauses(evl, int(a[2]), a[3] == 'T')
         bad += O.tally_clauses([O.NAME[r] for r in results], [int(x) for x in cnts.split(',')], int(ex))
         out += [('scheduler run %s: %s' % (json.dumps(a), b), {'events': evs.split(SEP2), 'failure': b}) for b in bad]
     if fn == 'jobsopt' and int(a[0]) >= 1 and ri != a[0]:
@@ -263,7 +272,7 @@ def inprocess(ctx, built, thorough):
     c_cl, ex_cl = gen_classify(rng, 20000 if thorough else 2500)
     c_ta, ex_ta = gen_tally(rng, 20000 if thorough else 2000, 4 if thorough else 3)
     c_sc, ex_sc = gen_sched(rng, 150000 if thorough else 3000, 14 if thorough else 9)
-    c_mi, ex_mi = gen_misc(rng, 20000 if thorough else 2500, 14 if thorough else 10)
+    c_mi, ex_mi = gen_misc(rng, 20000 if thorough else 2500, 14 if thorough else 10, 4 if thorough else 3)
     cases = c_cl + c_ta + c_sc + c_mi
     ctx.extra['input_distribution'] = {
         'classify': len(c_cl), 'classify_exhaustive_grid': ex_cl, 'tally': len(c_ta), 'tally_exhaustive_upto_len': 4 if thorough else 3,
@@ -393,7 +402,7 @@ def run(ctx):
                  'extraction with ExtrOcamlBasic directives only + OCaml + extract/driver.ml (cross-checked in-kernel on a sample each run)',
                  'harness/check_C12.py, harness/c12cli.py generators and harness/impl/c12.py adapter/canonicaliser/oracle',
                  'asyncio (Semaphore, ensure_future, cancellation) by its documented semantics; POSIX O_APPEND atomicity of the event log',
-                 'not modelled: SIGINT/SIGTERM handlers, process-group kill, --setup, --wrapper/--gdb/interactive, fnmatch bracket expressions'],
+                 'not modelled: SIGINT/SIGTERM handlers, process-group kill, --setup, --wrapper/--gdb/interactive, ranges inside fnmatch bracket expressions'],
         assumptions=['Print Assumptions: all property theorems closed under the global context (no axioms)',
                      'the semaphore wake-up order is left open in the model (superset of asyncio FIFO)',
                      'the event log of the test programs is the exact observable trace with results erased, starts logged later and ends logged earlier (a shrink): it is replayed with the stop rules switched off (lax); C12_log_check_sound proves that this accepts every log an admissible run can leave; the stop rules are checked on the exact in-process traces and on the testlog.json timeline',
